@@ -10,7 +10,7 @@ def rhd_param(outdir, ncell=(8, 8, 8), nsub=(2, 2, 2), periodic=(True, True, Tru
               anchor=(0.0, 0.0, 0.0), wall="reflective", gamma=5. / 3., total_time=1.0e-3, cfl=0.2,
               min_dt=None, max_dt=None, blocks=None, radiation=False, seed=42, dump_every_step=False,
               max_backups=1, nphoton=1000, niter=1, riemann="Exact", extra="", relative_paths=False, nsources=1, source_block=None,
-              diffuse=None, copy_level=None, sigma_h="6.3e-18 cm^2", luminosity=1.e46, alpha_h="2.7e-13 cm^3 s^-1", nbuffers=200, ntasks=5000, xh=None):
+              diffuse=None, copy_level=None, sigma_h="6.3e-18 cm^2", luminosity=1.e46, alpha_h="2.7e-13 cm^3 s^-1", nbuffers=200, ntasks=5000, xh=None, hydro_extra=""):
     """Write <outdir>/run.param and <outdir>/blocks.yml; returns the param path.
 
     blocks: list of dicts(origin, sides, n (m^-3), T (K), v (m/s)) - default two
@@ -84,7 +84,7 @@ DensityGridWriter:
 Hydro:
   polytropic index: %(gamma)r
   riemann solver type: %(riemann)s
-
+%(hydro_extra)s
 HydroBoundaryManager:
   boundary x high: %(bx)s
   boundary x low: %(bx)s
@@ -126,7 +126,7 @@ TaskBasedRadiationHydrodynamicsSimulation:
 %(dts)s%(extra)s
 TemperatureCalculator:
   do temperature calculation: false
-%(diffblock)s""" % dict(dir="." if relative_paths else outdir, sigma_h=sigma_h, alpha_h=alpha_h, nbuffers=nbuffers, ntasks=ntasks,
+%(diffblock)s""" % dict(dir="." if relative_paths else outdir, sigma_h=sigma_h, alpha_h=alpha_h, hydro_extra=hydro_extra, nbuffers=nbuffers, ntasks=ntasks,
            diffblock=("\nDiffuseReemissionHandler:\n  type: FixedValue\n  reemission probability: %r\n"
                       "  reemission frequency: 13.7 eV\n" % diffuse) if diffuse else "", nc0=ncell[0], nc1=ncell[1], nc2=ncell[2], ns0=nsub[0], ns1=nsub[1], ns2=nsub[2],
            p0=bl(periodic[0]), p1=bl(periodic[1]), p2=bl(periodic[2]), gamma=gamma, riemann=riemann,
